@@ -33,8 +33,8 @@ CHILDREN = {
 CHILD_FOR_TYPE = {"bbA": ["ch1", "ch5", "ch4"], "bbB": ["ch2"], "bbC": ["ch3"], "bbD": ["ch1"]}
 
 BASE_NAMES = ["a", "b", "c", "d", "e", "f", "g", "h"]
-ODD_NAMES = ["3x", "u.y", "u.a", "u_a", "u_y", "v_q", "u_k", "zz"]
-INSTS = ["u", "v", "u_k", "m", "r", "t"]
+ODD_NAMES = ["3x", "u.y", "u.a", "u_a", "u_b", "u_y", "v_q", "v_b", "u_k", "zz"]
+INSTS = ["u", "v", "u_k", "m", "r", "t", "3i"]
 TYPES = ["and", "nand", "or", "nor", "xor", "xnor", "buf", "not", "input", "0", "1", "x"]
 
 
@@ -126,6 +126,10 @@ class Model:
         elif k in ("add_subcircuit", "fill_blackbox"):
             if k == "add_subcircuit":
                 _, cname, inst, conns, strip = op
+                if cname == "self":
+                    for n, t in list(self.nodes.items()):
+                        self.nodes[f"{inst}_{n}"] = "buf" if t == "input" else t
+                    return
             else:
                 _, inst, cname = op
                 if inst not in self.bbs:
@@ -180,6 +184,9 @@ def gen_op(rng, model, w):
             n = rng.choice(free) if free and rng.random() < 0.8 else rng.choice(BASE_NAMES + ODD_NAMES)
         else:
             n = rng.choice(BASE_NAMES + ODD_NAMES)
+        if rng.random() < 0.12:
+            # a name that a later composition call will want for itself: <instance>_<pin or child node>
+            n = f"{rng.choice(INSTS[:3])}_{rng.choice(['a', 'b', 'y', 'd', 'q', 'qn', 'p', 'z', 't', 'w', 'k'])}"
         t = rng.choice(TYPES) if rng.random() < 0.93 else rng.choice(["foo", "bb_input", "bb_output", "AND"])
         uid = rng.random() < 0.25
         fi = fo = None
@@ -260,6 +267,9 @@ def gen_op(rng, model, w):
     if k == "add_subcircuit":
         cname = rng.choice(sorted(CHILDREN))
         inst = rng.choice(INSTS)
+        if rng.random() < 0.04:
+            # self-referential argument: the circuit instantiated inside itself
+            return ["add_subcircuit", "self", inst, None, rng.random() < 0.85]
         ch = CHILDREN[cname]
         conns = None
         if rng.random() < 0.8:
@@ -390,7 +400,8 @@ def _apply(cg, c, op, children, bbtypes):
     if k == "add_blackbox":
         return c.add_blackbox(bbtypes[op[1]], op[2], None if op[3] is None else dict(op[3]))
     if k == "add_subcircuit":
-        return c.add_subcircuit(children[op[1]], op[2], None if op[3] is None else dict(op[3]), strip_io=op[4])
+        child = c if op[1] == "self" else children[op[1]]
+        return c.add_subcircuit(child, op[2], None if op[3] is None else dict(op[3]), strip_io=op[4])
     if k == "fill_blackbox":
         return c.fill_blackbox(op[1], children[op[2]])
     raise RuntimeError(f"unknown op {k}")
@@ -421,6 +432,10 @@ def run(case, ctx):
             for n in _aslist(op[1]):
                 if "." in n:
                     exempt.add(n.split(".")[0])
+        if op[0] == "add_subcircuit" and op[1] == "self":
+            # the copy of an instance whose pin the caller removed inherits the exemption
+            for e in list(exempt):
+                exempt.add(f"{op[2]}_{e}")
         snap = ref.snapshot(c)
         outcome = "ok" if exc is None else type(exc).__name__
         ctx.log(step, op[0], outcome, state_digest(c))
